@@ -41,16 +41,8 @@ def ifaceOfInt : Int → Option Iface
 def handle (opname : String) (a : Args) : Option String :=
   match opname with
   | "pstdout" => run (do let ls ← listOf chars; pure (fmtExcept fmtVerdict (parseStdout ls))) a
-  | "ptext" => run (do
-      let b ← nats
-      match decodeAscii b with
-      | some t => pure (fmtExcept fmtVerdict (parseOutput t))
-      | none => pure "ERR UnicodeDecodeError") a
-  | "pfile" => run (do
-      let b ← nats
-      match decodeAscii b with
-      | some t => pure (fmtExcept fmtVerdict (parseMinisatFile t))
-      | none => pure "ERR UnicodeDecodeError") a
+  | "ptext" => run (do let b ← nats; pure (fmtExcept fmtVerdict (parseOutput (decodeAscii b)))) a
+  | "pfile" => run (do let b ← nats; pure (fmtExcept fmtVerdict (parseMinisatFile (decodeAscii b)))) a
   | "nostart" => run (do
       let i ← int
       match ifaceOfInt i with
